@@ -302,7 +302,7 @@ def sampled_start_insts(flat):
     return out
 
 
-def simulate(flat: Flat, emulate_stale=False, emulate_sampled_start=False) -> ModelRun:
+def simulate(flat: Flat, emulate_stale=False, emulate_sampled_start=False, preset=None) -> ModelRun:
     case = flat.case
     start, end = case.start, case.end
     insts = flat.insts
@@ -352,6 +352,9 @@ def simulate(flat: Flat, emulate_stale=False, emulate_sampled_start=False) -> Mo
             elif op == "r":
                 s.sched.reset()
             R.sched_q[(i.uid, evalno, k)] = s.sched.queries(now)
+
+    for k, v in (preset or {}).items():
+        S[k].val, S[k].valid, S[k].lmt = v, True, start - 1
 
     # ---- start phase (index order == topological order for start-side effects that matter) ----
     for k in flat.order:
